@@ -64,6 +64,15 @@ func (fr *Frame) execCall(cc *ssa.CallCommon, st *State, site ssa.Instruction, d
 	}
 	// 3. static callee
 	if fn := cc.StaticCallee(); fn != nil {
+		if fr.parent == nil && fr.contract != nil {
+			for _, n := range callCounterNames(fr.contract) {
+				if n == fn.Name() {
+					defer func(key string) {
+						vc.set(st, key, "Int", iAdd(vc.get(st, key, "Int"), "1"))
+					}("S.calls:" + n)
+				}
+			}
+		}
 		if fr.parent == nil && fr.contract != nil && fr.contract.AtCall != nil && fr.dry == 0 {
 			for _, key := range []string{funcKey(fn), fn.Name()} {
 				for _, cl := range fr.contract.AtCall[key] {
@@ -677,7 +686,54 @@ func (fr *Frame) execAppend(cc *ssa.CallCommon, args []Value, st *State, site ss
 	}}
 	// appending nothing to a nil slice yields nil
 	if _, isS := isStruct(et); isS {
-		vc.note("append of struct elements: contents abstracted")
+		if _, flat := flatStruct(et); !flat || srcIsString {
+			vc.note("append of struct elements: contents abstracted")
+			return res, nil
+		}
+		// element objects elem(arr, i) carry their fields in the H families of the struct
+		roff := res.C[1]
+		lo1 := roff
+		hi1 := vc.define("append.mid", "Int", iAdd(roff, s.C[2]))
+		hi2 := vc.define("append.end", "Int", iAdd(roff, newLen))
+		el := func(arr, idx Term) Term { return vc.elemPtr(arr, idx, et).C[0] }
+		ekS := "M." + typeKey(et)
+		eidx := sym("elem_idx:" + ekS)
+		for _, c := range comps(et) {
+			key := structKey(et) + c.Suffix
+			srt := "(Array Int " + c.Sort + ")"
+			h := vc.get(st, key, srt)
+			neu := vc.fresh("append."+key, srt)
+			vc.nfresh++
+			i := sym(fmt.Sprintf("i!%d", vc.nfresh))
+			vc.inQuant++
+			c1 := "(forall ((" + i + " Int)) (! (=> (and (<= " + lo1 + " " + i + ") (< " + i + " " + hi1 + ")) (= (select " + neu + " " + el(res.C[0], i) + ") (select " + h + " " + el(s.C[0], "(+ "+s.C[1]+" (- "+i+" "+roff+"))") + "))) :pattern (" + el(res.C[0], i) + ")))"
+			c2 := "(forall ((" + i + " Int)) (! (=> (and (<= " + hi1 + " " + i + ") (< " + i + " " + hi2 + ")) (= (select " + neu + " " + el(res.C[0], i) + ") (select " + h + " " + el(tl.C[0], "(+ "+tl.C[1]+" (- "+i+" "+hi1+"))") + "))) :pattern (" + el(res.C[0], i) + ")))"
+			c3 := "(forall ((" + i + " Int)) (! (=> (not (and " + vc.isElemOf(i, res.C[0], et) + " (<= " + lo1 + " (" + eidx + " " + i + ")) (< (" + eidx + " " + i + ") " + hi2 + "))) (= (select " + neu + " " + i + ") (select " + h + " " + i + "))) :pattern ((select " + neu + " " + i + "))))"
+			vc.inQuant--
+			vc.assume(st, c1)
+			vc.assume(st, c2)
+			vc.assume(st, c3)
+			if n, ok := isConstLen(tlen); ok {
+				for j := 0; j < n; j++ {
+					vc.assume(st, sEq(sSel(neu, el(res.C[0], iAdd(hi1, sInt(int64(j))))), sSel(h, el(tl.C[0], iAdd(tl.C[1], sInt(int64(j)))))))
+				}
+			}
+			vc.set(st, key, srt, neu)
+			if fr.dry == 0 {
+				reach := st.reach
+				neuC, hC := neu, h
+				sArr, sOff, tArr, tOff, rArr, lo1C, hi1C, hi2C, roffC := s.C[0], s.C[1], tl.C[0], tl.C[1], res.C[0], lo1, hi1, hi2, roff
+				vc.univ = append(vc.univ, func(inst []Term) {
+					for _, t0 := range inst {
+						for _, t := range []Term{t0, iAdd(roffC, t0)} {
+							a1 := sImp(sAnd("(<= "+lo1C+" "+t+")", "(< "+t+" "+hi1C+")"), sEq(sSel(neuC, el(rArr, t)), sSel(hC, el(sArr, "(+ "+sOff+" (- "+t+" "+roffC+"))"))))
+							a2 := sImp(sAnd("(<= "+hi1C+" "+t+")", "(< "+t+" "+hi2C+")"), sEq(sSel(neuC, el(rArr, t)), sSel(hC, el(tArr, "(+ "+tOff+" (- "+t+" "+hi1C+"))"))))
+							vc.emit("(assert " + sImp(reach, sAnd(a1, a2)) + ")")
+						}
+					}
+				})
+			}
+		}
 		return res, nil
 	}
 	ek := "M." + typeKey(et)
